@@ -435,7 +435,9 @@ func judge(body string, w *world, q query) *finding {
 				}
 				n, ok := target.nums[norm]
 				if !ok {
-					return &finding{"harness:unmapped-metric", fmt.Sprintf("metric %s maps to no counter field of %s", s.name, typ)}
+					// a labelled series of an entity type whose name designates no counter of that
+					// entity: nothing of the entity can equal its value
+					return &finding{"sample-designates-no-counter:" + s.name, fmt.Sprintf("line %d: %s %v = %s, but a %s entity has no counter field that this name designates", s.line, s.name, s.labels, s.value, typ)}
 				}
 				if !valueEquals(s.value, n) {
 					return &finding{"value-mismatch", fmt.Sprintf("line %d: %s %v = %s, the entity's counter is %s", s.line, s.name, s.labels, s.value, n)}
